@@ -332,6 +332,14 @@ func utilSession(tag byte, n int) func(l logger) {
 		db := newDst(l)
 		berr := wsutil.ControlHandler{Src: bytes.NewReader(bad), Dst: db, State: ws.StateClientSide, DisableSrcCiphering: true}.Handle(ws.Header{Fin: true, OpCode: ws.OpClose, Length: int64(len(bad))})
 		l.Logf("bad-close err=%v reply=%s", berr, framesLog(db.Bytes()))
+		// a pool-class writer whose connection broke under it: it goes back to the pool in its
+		// failed state (what a server does with the writer of a dead connection)
+		dead := newDst(l)
+		dead.FailAt = 0
+		wf := wsutil.NewWriterSize(dead, ws.StateServerSide, ws.OpBinary, 128)
+		_, ferr := wf.Write(fill(300, tag+9))
+		l.Logf("writer-on-dead-connection err=%v", ferr != nil)
+		wsutil.PutWriter(wf)
 		// a writer whose Size() is a pool class, so that PutWriter really recycles it
 		d0 := newDst(l)
 		w0 := wsutil.NewWriterSize(d0, ws.StateServerSide, ws.OpText, 128)
